@@ -586,7 +586,10 @@ def simulate(flat: Flat, emulate_stale=False, emulate_sampled_start=False, prese
                 # not woken in the start cycle of the dynamic child, not even by the ticks of other elements that are nodes of
                 # the child - but an element that IS a boundary input of the started child schedules its consumers through the
                 # child's start (sampled initialisation), whatever the notifications do
-                if not any(r.target.uid in sampled_inputs and r.target.id in ticked and sampled_kind(i, r, t) is None for r in i.ins):
+                # (an element that is a feedback delivering its INITIAL value in that cycle wakes it as well: thorough tier, seed 0,
+                # c12_0_2718)
+                if not any(r.target.uid in sampled_inputs and r.target.id in ticked and sampled_kind(i, r, t) is None for r in i.ins) and \
+                        not any(r.target.op == "fb" and r.target.id in ticked for r in i.ins):
                     active_tick = False
             if not (due or active_tick):
                 if any(r.target.id in ticked for r in i.ins):
